@@ -182,6 +182,7 @@ func lifeJobs(tier string) []*Job {
 	} else {
 		jobs = append(jobs, cmk("H_life_wc", 1, P("L", 4, "bc", 0, "num", 2)), cmk("H_life_wc", 2, P("L", 3, "bc", 1, "num", 3)))
 	}
+	jobs = append(jobs, concReaderLifeJobs(tier)...)
 	// Reset followed by a change of block size and an input larger than the smaller block size
 	for _, p := range [][2]int{{7, 4}, {4, 5}, {5, 4}, {4, 4}} {
 		jobs = append(jobs, fmk("H_life_w2", P("bs1", p[0], "bs2", p[1], "n", 70000, "period", -1150)))
@@ -294,9 +295,10 @@ func init() {
 				L = 5
 			}
 			return []string{fmt.Sprintf("every sequence of %d calls; Writer alphabet {Apply(toggle block checksum), Write(2 symbolic bytes), ReadFrom(1 byte), Flush, Close, Reset(new sink), Reset(same sink)}; Reader alphabet {Read(3), Read(>= block), Read(empty buffer), WriteTo, Size, Reset(new source)} over a valid frame followed by 0/3/8 trailing bytes; opcodes chosen symbolically, compared after every call with the reference model of the statement", L),
+				"concurrent Reader (ConcurrencyOption(2)): every sequence of 3 calls (thorough 4) of the Reader alphabet, including Reset before the end of the stream, under every schedule with at most 1 delay (thorough also 3 calls / 2 delays), same model",
 				"concurrent Writer (ConcurrencyOption 2 and 3): every sequence of 4 calls under every schedule with at most 1 delay and of 3 calls with at most 2 (thorough: 4 calls / 2 delays, 5 calls / 1 delay), same model minus the sequential-only Flush clause; the sink is inspected only after Close or Reset",
 				"Reset scenarios: {nothing, Write, Flush, ReadFrom} x {closed, not closed} on a Writer with block size A, then Reset, Apply(BlockSizeOption(B)), a 70000-byte input and Close, for (A,B) in {(4M,64K),(64K,256K),(256K,64K),(64K,64K)}: output must equal a brand-new Writer's and be a valid frame with block size B"}
-		}, Outside: []string{"concurrent Reader lifecycle beyond the Reset/reuse scenarios of C08; longer sequences; options other than block checksum in Apply"}, Assumptions: append([]string{concAssumptions[0], concAssumptions[1], "after a rejected Apply (options after the first write) the object may be failed: the model then only requires that calls return"}, frameAssumptions...),
+		}, Outside: []string{"longer sequences; options other than block checksum in Apply"}, Assumptions: append([]string{concAssumptions[0], concAssumptions[1], "after a rejected Apply (options after the first write) the object may be failed: the model then only requires that calls return"}, frameAssumptions...),
 		Filter: func(id string) bool { return hasPrefix(id, "w-") || hasPrefix(id, "w2-") || hasPrefix(id, "r-") || hasPrefix(id, "no-panic") || hasPrefix(id, "unwind") }}
 	checkDefs["C18"] = &CheckDef{Property: "C18", Jobs: creaderJobs,
 		Bounds: func(tier string) []string {
